@@ -177,10 +177,30 @@ func (s *DeleteStmt) Validate(ctx *CheckCtx) error {
 func (s *SelectStmt) ValidateFields(ctx *CheckCtx) error {
 	// A field that is just the name of another field (int(value) as n, n as m)
 	// refers to that field like any other use of the name
-	for i, f := range s.Fields {
-		if ref, ok := tryRewriteNameExpr(f, ctx).(*FieldReferenceExpr); ok && ref.FieldExpr != f {
-			s.Fields[i] = ref
+	// (the field it names first: m as p, n as m, int(value) as n)
+	resolved := make([]bool, len(s.Fields))
+	var resolve func(i int)
+	resolve = func(i int) {
+		if resolved[i] {
+			return
 		}
+		resolved[i] = true
+		name, ok := s.Fields[i].(*NameExpr)
+		if !ok {
+			return
+		}
+		for j, fname := range ctx.FieldNames {
+			if fname == name.Data && j < len(s.Fields) {
+				if j != i {
+					resolve(j)
+					s.Fields[i] = &FieldReferenceExpr{Name: name, FieldExpr: s.Fields[j]}
+				}
+				break
+			}
+		}
+	}
+	for i := range s.Fields {
+		resolve(i)
 	}
 	for _, f := range s.Fields {
 		if err := s.validateField(f, ctx); err != nil {
